@@ -612,16 +612,7 @@ func taskOrders(seed int64) string {
 				}
 				order = strings.Join(names, ",")
 			}
-			for i := 0; i < 100; i++ {
-				w := sys.Gates.Waiting()
-				if len(w) == 0 && i > 2 {
-					break
-				}
-				for _, k := range w {
-					sys.Gates.Release(k[0], k[1], core.Outcome{Kind: core.OutOK})
-				}
-				time.Sleep(200 * time.Microsecond)
-			}
+			drv.DrainAll(sys)
 			sys.Close()
 			if k == 0 {
 				first = order
